@@ -76,6 +76,13 @@ macro "ext_tie_isaac_step" f:ident : tactic =>
        simp only [$f:ident, Isaac.rngstep, Isaac.ind, Isaac.params32, Isaac.params64, BitVec.add_assoc, BitVec.add_comm,
          BitVec.add_left_comm, BitVec.xor_comm]))
 
+/-- the hand-written `PartialEq` of the cores: field-wise comparison = the model's `beq` -/
+macro "ext_tie_core_eq" f:ident : tactic =>
+  `(tactic| first
+    | (intros; rfl)
+    | (intro a b
+       simp only [$f:ident, Hc128.Core.beq, Isaac.Core.beq, Bool.and_assoc, Bool.and_comm, Bool.and_left_comm]))
+
 /-- `ind`: `Wrapping >> usize` masks the amount, the model shifts by it: equal for amounts below the width -/
 macro "ext_tie_isaac_ind" f:ident : tactic =>
   `(tactic| (intro mem v amount h
